@@ -242,7 +242,8 @@ def Tree.evalF (vars : List AdF) (n : Nat) : Tree → Res AdF
   | .l2norm dim a => do
     let x ← a.evalF vars n
     if dim == 0 then throw "bad-dim" else
-    if x.val.length % dim != 0 then throw "AssertionError" else
+    -- `np.reshape(var.val, (dim, -1))` raises before the `assert dim_size % dim == 0` is reached
+    if x.val.length % dim != 0 then throw "ValueError" else
     pure (l2F dim n x)
   | .maxAd a b => do
     let x ← a.evalF vars n
